@@ -1,7 +1,7 @@
 (* Extract_amg.v -- extraction for the amg group (C02, C03). Same directives as Extract_kernels.v. *)
 From Amgcl Require Import ExtractCommon.
 From Coq Require Import QArith Qcanon.
-From Amgcl Require Import Scalar QcInst Vec Crs Kernels MatOps Relax DenseSolve Amg AmgExec.
+From Amgcl Require Import Scalar QcInst Vec Crs Kernels MatOps Relax DenseSolve Amg AmgExec Ilu Cheby.
 Separate Extraction
   QcInst.QcS Scalar.is_zero Scalar.smax Scalar.smin
-  Vec Crs Kernels MatOps Relax DenseSolve Amg AmgExec.
+  Vec Crs Kernels MatOps Relax DenseSolve Amg AmgExec Ilu Cheby.
